@@ -10,16 +10,28 @@
 #include <errno.h>
 #include <string.h>
 #include <arpa/inet.h>
+#ifdef NANOLANG_VERIF
+#include <stdlib.h>
+#endif
 
 /* ========================================================================
  * Path helpers
  * ======================================================================== */
 
 void vmd_socket_path(char *buf, size_t size) {
+#ifdef NANOLANG_VERIF
+    /* Verification hook (h3): private socket path so test daemons do not collide. */
+    const char *vs = getenv("NANOLANG_VERIF_VMD_SOCK");
+    if (vs && *vs) { snprintf(buf, size, "%s", vs); return; }
+#endif
     snprintf(buf, size, "/tmp/nanolang_vm_%u.sock", (unsigned)getuid());
 }
 
 void vmd_pid_path(char *buf, size_t size) {
+#ifdef NANOLANG_VERIF
+    const char *vp = getenv("NANOLANG_VERIF_VMD_PID");
+    if (vp && *vp) { snprintf(buf, size, "%s", vp); return; }
+#endif
     snprintf(buf, size, "/tmp/nanolang_vm_%u.pid", (unsigned)getuid());
 }
 
